@@ -70,7 +70,7 @@ def serStep (ds : DualState) (cs : CurveState) (fs : FxState) (ss : SplineState)
     let c ← cs.curves.get? (← id.toNat?)
     let kind := match c.vals with | .f64 _ => 0 | .dual _ => 1 | .dual2 _ => 2
     let v : SCurve :=
-      ⟨kind, (c.keys.zip c.vals.toNumbers).map (fun p => (p.1.toNat, viewNum p.2)), interpIdx c.interp,
+      ⟨kind, (c.keys.zip c.vals.toNumbers).map (fun p => ((p.1 % (2 ^ 64 : Int)).toNat, viewNum p.2)), interpIdx c.interp,
        sbytes c.id, 2, 2, c.indexBase.map fbits, sbytes "all"⟩
     pure ("B " ++ hexOf (encCurve v))
   | ["rt", _, _] => some "ok"
